@@ -118,14 +118,25 @@ func NewPool(program string, n int) *Pool {
 		pw.Close()
 		p.cmds = append(p.cmds, cmd)
 		p.wg.Add(1)
+		// Up to three jobs are in flight per worker (written ahead into its
+		// stdin pipe) so that a worker never waits for the parent to be
+		// scheduled between two jobs.
+		inflight := make(chan *pendingJob, 3)
 		go func(i int) {
-			defer p.wg.Done()
-			rd := bufio.NewReaderSize(pr, 1<<20)
 			for pj := range p.jobs {
 				b, _ := json.Marshal(pj.job)
+				inflight <- pj
 				if _, err := stdin.Write(append(b, '\n')); err != nil {
 					InternalError("worker %d died (write: %v)", i, err)
 				}
+			}
+			close(inflight)
+			stdin.Close()
+		}(i)
+		go func(i int) {
+			defer p.wg.Done()
+			rd := bufio.NewReaderSize(pr, 1<<20)
+			for pj := range inflight {
 				line, err := rd.ReadBytes('\n')
 				if err != nil {
 					cmd.Wait()
@@ -137,7 +148,6 @@ func NewPool(program string, n int) *Pool {
 				}
 				pj.done <- &res
 			}
-			stdin.Close()
 			cmd.Wait()
 		}(i)
 	}
